@@ -117,12 +117,19 @@ def frame_menu(tier):
             out.append((label + "_trunc%d" % k, p[:k]))
     # every frame twice in one packet / behind a PING
     seen = set()
+    seen2 = set()
     for label, p in base:
         if label in seen or len(p) > 200:
             continue
         seen.add(label)
         out.append((label + "_x2", p + p))
         out.append(("PING+" + label, b"\x01" + p))
+    # frames that change what later frames refer to (connection IDs, stream ends): EVERY instance twice - a repeated
+    # frame is what a retransmission looks like, and the second copy meets the state the first one left
+    for label, p in base:
+        if label in ("RETIRE_CONNECTION_ID", "NEW_CONNECTION_ID", "RESET_STREAM", "STOP_SENDING") and (label, p) not in seen2:
+            seen2.add((label, p))
+            out.append((label + "_each_x2", p + p))
     return out
 
 
@@ -736,7 +743,7 @@ def run_chunk(args):
                                         % (e, state))
             labels = [it[0].split("@")[0].split("_trunc")[0] for it in repro]
             sig = {"monitor": "api_exception", "exc": type(e).__name__, "where": inner, "entry": entry,
-                   "role": STATES[state][0], "input": labels[-1].split("_x2")[0] if len(repro) == 1 else "chain"}
+                   "role": STATES[state][0], "input": labels[-1].replace("_each_x2", "").split("_x2")[0] if len(repro) == 1 else "chain"}
             res["viol"].append((sig, "%s: %s in %s (API entry %s) on input %s in state %s%s"
                                 % (type(e).__name__, e, inner, entry, item[0], state,
                                    "" if len(repro) == 1 else " after a chain of %d inputs" % len(repro)),
